@@ -66,6 +66,9 @@ func runC12(c *fw.Ctx, cs fw.Case) {
 			if !ok {
 				continue
 			}
+			if !quietTame(h, cfg) {
+				cfg = searchCfgs[r.Intn(2)]
+			}
 			n0, n1 := branching(b0, cfg.limit)
 			bud := budget
 			if cfg.quiet {
